@@ -186,6 +186,32 @@ theorem masks_ok_of_setup (hn : p.nblocks ≠ 1) {l : List (Nat × Array Bool)} 
     rw [this] at hd
     cases hd
 
+variable (p) in
+/-- the facts about the *input* alone that the theorems need when masks are given by the caller (what `MasksOK` asks besides the two mask clauses) -/
+structure InputFacts : Prop where
+  wf : ∀ t ∈ p.terms, t.2.d = p.d
+  blocks_lt : ∀ a : Fin p.d, p.blk a.val < p.nblocks
+  atol_nonneg : 0 ≤ p.atol
+  herm : ∀ t ∈ p.terms, ∀ a b : Fin p.d, star (t.2.get b.val a.val) = t.2.get a.val b.val
+  h0_diag : ∀ t ∈ p.terms, t.1 = p.zeroOrder → ∀ a b : Fin p.d, a ≠ b → t.2.get a.val b.val = 0
+  blocks_apart : ∀ a b : Fin p.d, p.blk a.val ≠ p.blk b.val → Scalar.absGt (p.energy a.val - p.energy b.val) p.atol = true
+  no_shared : ∀ a b : Fin p.d, p.blk a.val ≠ p.blk b.val → Scalar.isClose (p.energy a.val) (p.energy b.val) = false
+
+/-- a problem with masks of the caller whose input is well-formed and which the model of the set-up phase accepts is an `Accepted` problem: the hypotheses of
+C01–C04 are met by what the code checks -/
+theorem accepted_of_setup (hin : p.InputFacts) (hn : p.nblocks ≠ 1) {l : List (Nat × Array Bool)} (hfd : p.fd = .dict l) (hne : l ≠ [])
+    (hok : Validate.setup p.configOf = .ok) : p.Accepted := by
+  have hEff : p.fdEff = .dict l := by
+    unfold fdEff
+    rw [hfd]
+    cases l with
+    | nil => exact absurd rfl hne
+    | cons _ _ => rfl
+  obtain ⟨h1, h2⟩ := masks_ok_of_setup hn hfd hne hok
+  exact MasksOK.accepted
+    { wf := hin.wf, blocks_lt := hin.blocks_lt, atol_nonneg := hin.atol_nonneg, herm := hin.herm, h0_diag := hin.h0_diag,
+      blocks_apart := hin.blocks_apart, no_shared := hin.no_shared, masks := ⟨l, hEff⟩, mask_symmetric := h1, mask_spares_equal_levels := h2 }
+
 end Problem
 end BlockDiag
 end Pyma
